@@ -109,6 +109,10 @@ def cost(r, p=DEFAULT):
     comps = r.sample([expr(r), r.choice(CURS), expr(r) + ' ' + r.choice(CURS), date(r, p), s(r, p), '*',
                       expr(r) + ' # ' + expr(r) + ' ' + r.choice(CURS), '# ' + expr(r) + ' USD', expr(r) + ' # USD'],
                      r.randint(0, 3))
+    if r.random() < 0.2:
+        # number and currency as separate components, in any order and with anything between them
+        comps = [expr(r), r.choice(CURS)] + r.sample([date(r, p), s(r, p), '*'], r.randint(0, 2))
+        r.shuffle(comps)
     body = r.choice([', ', ',', ' , '] if p.abut else [', ', ' , ']).join(comps)
     return r.choice(['{' + body + '}', '{{' + body + '}}', '{ ' + body + ' }'])
 
